@@ -71,6 +71,37 @@ func genTypes(r *rand.Rand, o genOpts) []TypeDecl {
 				}
 			}
 		}
+		// sometimes two of the embedded types get a func() field of the same name: a selector that is
+		// ambiguous between two FIELDS at one depth (F05-17, repaired by 43e97a5)
+		if o.funcFld && r.Intn(100) < 12 {
+			var embs []int
+			for _, f := range t.Fields {
+				if f.Kind == "emb" || f.Kind == "embptr" {
+					embs = append(embs, f.Typ)
+				}
+			}
+			if len(embs) >= 2 {
+				m := methodPool[r.Intn(len(methodPool))]
+				free := func(j int) bool {
+					for _, x := range ts[j].Methods {
+						if x.Name == m {
+							return false
+						}
+					}
+					for _, x := range ts[j].Fields {
+						if x.Name == m {
+							return false
+						}
+					}
+					return true
+				}
+				if free(embs[0]) && free(embs[1]) {
+					for _, j := range embs[:2] {
+						ts[j].Fields = append(append([]Field{}, ts[j].Fields...), Field{Name: m, Kind: "func"})
+					}
+				}
+			}
+		}
 		if o.funcFld && r.Intn(100) < 14 {
 			m := methodPool[r.Intn(len(methodPool))]
 			if !have[m] {
